@@ -586,6 +586,19 @@ func (c *checkCtx) plan() bool {
 		c.registryInit()
 	case "C20":
 		c.framesTask("C20")
+		// Encode / Decode reach shared state only through codec.Get (the frame checksums): parallel use is race-free
+		// only if concurrent look-ups are, i.e. Get obeys the lock discipline and its specification (C19's obligations
+		// for Get; Registry / Remove / Clear run at start-up only and are C19's business)
+		n := len(c.obs)
+		c.registryTask()
+		kept := c.obs[:n]
+		for _, o := range c.obs[n:] {
+			if strings.HasPrefix(o.Name, "codec.Get/") {
+				o.Props = []string{"C20"}
+				kept = append(kept, o)
+			}
+		}
+		c.obs = kept
 	default:
 		return false
 	}
@@ -797,6 +810,26 @@ func (c *checkCtx) finish() int {
 	}
 	if violations > 25 {
 		fmt.Printf("(%d further failed obligations not listed)\n", violations-25)
+	}
+	// thorough tier, nothing failed: a bounded sweep of the REAL code with the replay harnesses (random and boundary
+	// values for every message type of every package; for C02 / C03 / C13 an interpreter of the pinned layouts that
+	// shares no code with the symbolic engine). Labelled bounded; it can only add a violation, never remove one.
+	if c.tier == "thorough" && rc == 0 && os.Getenv("VERIF_NOREPLAY") == "" && len(relatedProps[c.prop]) > 0 && c.prop != "C19" && c.prop != "C20" && c.prop != "C14" {
+		found, res := c.replay(&Obligation{Func: "codec.sweep"})
+		rr, _ := res.(*replayResult)
+		if rr != nil {
+			c.notes = append(c.notes, fmt.Sprintf("bounded (not proof): replay harnesses run against the real code on the tree as it is: %d message iterations, %d images compared with the pinned-layout interpreter (%d skipped), findings for this property: %v", rr.Iters, rr.Schema[0], rr.Schema[1], found))
+		}
+		if found {
+			path := filepath.Join(c.outDir(), "evidence", "replay", fmt.Sprintf("%s-sweep.json", c.prop))
+			m := map[string]interface{}{"property": c.prop, "obligation": "bounded/real-code-sweep", "what_is_being_proved": "bounded sweep of the real code by the replay harnesses (thorough tier); every obligation was discharged, yet the real code violates the property on the input below — the proof or a pinned layout is wrong, or an assumption of the trusted base fails",
+				"status": "failing input found", "failing_input_found": true, "replay": rr}
+			b, _ := json.MarshalIndent(m, "", " ")
+			os.WriteFile(path, b, 0o644)
+			fmt.Printf("VIOLATION property=%s replay=%s obligation=bounded/real-code-sweep\n", c.prop, path)
+			rc = 1
+			violations++
+		}
 	}
 	c.writeEvidence(total, ok, trivial, by, solveT, gen, slowest, violations, knownReported)
 	fmt.Printf("%s %s: %d obligations, %d discharged (%d by normaliser), %d failed; %d functions under contract; %.1fs\n", c.prop, c.tier, total, ok, trivial, len(failed), len(c.funcs), time.Since(c.t0).Seconds())
